@@ -64,6 +64,10 @@ def check(c):
     c.floor('C19.schema', 'tables in TABLES_ATTRS', len(schema), 15)
     dao = c.idx.cls('CylcWorkflowDAO', 'rundb')
 
+    # ---- row identity: every insert is INSERT OR REPLACE, so the primary key
+    # decides which rows overwrite each other
+    primary_keys(c, 'C19.primary-keys')
+
     # ---- writers use schema columns
     rows = sm.writer_rows(c)
     c.floor('C19.writer-keys', 'queued insert rows', len(rows), 15)
@@ -387,6 +391,59 @@ def check(c):
 
 
 DAO_NAME = 'CylcWorkflowDAO'
+
+# identity of a row as the in-memory model has it (confirmed by reading the
+# writers); `None` = append-only log table / whole-tuple identity: the table
+# must have no primary key, or one covering every listed column
+ROW_IDENTITY = {
+    'broadcast_states': ['point', 'namespace', 'key'],
+    'inheritance': ['namespace'],
+    'workflow_params': ['key'],
+    'workflow_flows': ['flow_num'],
+    'workflow_template_vars': ['key'],
+    'task_action_timers': ['cycle', 'name', 'ctx_key'],
+    'task_jobs': ['cycle', 'name', 'submit_num'],
+    'task_late_flags': ['cycle', 'name'],
+    'task_outputs': ['cycle', 'name', 'flow_nums'],
+    'task_pool': ['cycle', 'name', 'flow_nums'],
+    'task_prerequisites': ['cycle', 'name', 'flow_nums', 'prereq_name',
+                           'prereq_cycle', 'prereq_output'],
+    'xtriggers': ['signature'],
+    'task_states': ['name', 'cycle', 'flow_nums'],
+    'task_timeout_timers': ['cycle', 'name'],
+    'absolute_outputs': ('whole', ['cycle', 'name', 'output']),
+    'tasks_to_hold': ('whole', ['name', 'cycle']),
+    'broadcast_events': ('log', []),
+    'task_events': ('log', []),
+}
+
+
+def primary_keys(c, rule, only=None):
+    ta = c.K.class_attr(DAO_NAME, 'TABLES_ATTRS')
+    if not isinstance(ta, dict):
+        raise AnalysisError('TABLES_ATTRS does not fold')
+    for t, cols in sorted(ta.items()):
+        if only is not None and t not in only:
+            continue
+        pk = [col[0] for col in cols if len(col) > 1 and isinstance(
+            col[1], dict) and col[1].get('is_primary_key')]
+        want = ROW_IDENTITY.get(t)
+        if want is None:
+            c.ob(rule, f'rundb:TABLES_ATTRS[{t}] primary key', False, '',
+                 f'table {t} has no recorded row identity (new table?)')
+        elif isinstance(want, tuple):
+            kind, full = want
+            ok = not pk or (kind == 'whole' and set(pk) == set(full))
+            c.ob(rule, f'rundb:TABLES_ATTRS[{t}] primary key', ok, '',
+                 f'primary key {pk}: rows are distinct facts' if ok else
+                 f'primary key {pk} is narrower than the row identity '
+                 f'{full or "(append-only log)"}: INSERT OR REPLACE silently '
+                 'drops earlier rows that differ only in the other columns')
+        else:
+            c.ob(rule, f'rundb:TABLES_ATTRS[{t}] primary key',
+                 set(pk) == set(want), '', f'primary key {pk}' + (
+                     '' if set(pk) == set(want) else f', row identity {want}: '
+                     'rows overwrite each other / duplicate on replace'))
 
 VARIANTS = [
     ('swap-select', 'cylc/flow/rundb.py',
